@@ -52,6 +52,29 @@ def site_of(fn):
     sp = fn.get("span") or {}
     return f"{sp.get('f')}:{sp.get('l')}"
 
+def judge(prop, rule_module, ctx, floors=None, announce=False):
+    """Applies known findings and floors. Returns (failing, unexpected, counts, known_keys)."""
+    known = load_known()
+    known_keys = {(k["property"], k["key"]): k for k in known.get("known", [])}
+    viol = [f for f in ctx.findings if not f.ok]
+    unexpected = []
+    for f in viol:
+        kk = (prop, f.key)
+        if kk in known_keys:
+            if announce:
+                print(f"KNOWN-FINDING: property={prop} {f.key} :: {known_keys[kk].get('what', f.detail)}")
+        else:
+            unexpected.append(f)
+    counts = {}
+    for f in ctx.findings:
+        counts[f.rule] = counts.get(f.rule, 0) + 1
+    for rule, n in (floors or getattr(rule_module, "FLOORS", {})).items():
+        if counts.get(rule, 0) < n:
+            f = Finding(rule, f"{prop}/floor/{rule}", False, f"rule matched {counts.get(rule, 0)} instances, floor is {n} (anchor missing or renamed)")
+            ctx.findings.append(f)
+            unexpected.append(f)
+    return viol, unexpected, counts, known_keys
+
 def run_check(prop, rule_module, argv, level="other", explanation="", assumptions=None, floors=None):
     import argparse
     ap = argparse.ArgumentParser()
@@ -72,28 +95,27 @@ def run_check(prop, rule_module, argv, level="other", explanation="", assumption
         traceback.print_exc()
         print(f"CHECKER-ERROR property={prop} {type(e).__name__}: {e}")
         sys.exit(2)
-    known = load_known()
-    known_keys = {(k["property"], k["key"]): k for k in known.get("known", [])}
-    viol = [f for f in ctx.findings if not f.ok]
-    unexpected = []
-    for f in viol:
-        kk = (prop, f.key)
-        if kk in known_keys:
-            print(f"KNOWN-FINDING: property={prop} {f.key} :: {known_keys[kk].get('what', f.detail)}")
-        else:
-            unexpected.append(f)
-    # floors: a rule that matched fewer instances than counted by hand fails closed
-    floor_fail = []
-    counts = {}
-    for f in ctx.findings:
-        counts[f.rule] = counts.get(f.rule, 0) + 1
-    for rule, n in (floors or getattr(rule_module, "FLOORS", {})).items():
-        if counts.get(rule, 0) < n:
-            floor_fail.append((rule, counts.get(rule, 0), n))
-    for rule, got, n in floor_fail:
-        f = Finding(rule, f"{prop}/floor/{rule}", False, f"rule matched {got} instances, floor is {n} (anchor missing or renamed)")
-        ctx.findings.append(f)
-        unexpected.append(f)
+    viol, unexpected, counts, known_keys = judge(prop, rule_module, ctx, floors, announce=True)
+    if a.replay:
+        with open(a.replay) as fh:
+            want = json.load(fh).get("key")
+        hit = [f for f in unexpected if f.key == want]
+        print(f"REPLAY {want}: " + ("still violated" if hit else "no longer violated"))
+        for f in hit:
+            print(f"VIOLATION property={prop} replay={a.replay}\n  rule={f.rule} key={f.key} site={f.site}\n  {f.detail[:1500]}")
+        sys.exit(1 if hit else 0)
+    selftest_report = None
+    if a.tier == "thorough":
+        import selftest
+        try:
+            selftest_report = selftest.run(prop, rule_module, floors)
+        except Exception as e:
+            traceback.print_exc()
+            print(f"CHECKER-ERROR property={prop} selftest {type(e).__name__}: {e}")
+            sys.exit(2)
+        for m in selftest_report["mutants"]:
+            if not m["as_expected"]:
+                print(f"SELFTEST-MISS property={prop} mutant={m['name']} expected={'fire' if m['expect_fire'] else 'silent'} got={'fire' if m['fired'] else 'silent'}")
     replay_paths = []
     for i, f in enumerate(unexpected):
         rp = os.path.join(VERIF, "evidence", "replay", f"{prop}-{i}.json")
@@ -122,6 +144,8 @@ def run_check(prop, rule_module, argv, level="other", explanation="", assumption
         "trusted_base": assumptions or getattr(rule_module, "ASSUMPTIONS", []),
         "facts_nonce": next(iter(ctx.crates.values())).nonce if ctx.crates else None,
     }
+    if selftest_report is not None:
+        cov["selftest"] = selftest_report
     evd = {"property_id": prop, "tier": a.tier, "seed": seed, "level": level, "coverage": cov,
            "assumptions": assumptions or getattr(rule_module, "ASSUMPTIONS", []),
            "wall_s": round(time.time() - t0, 2), "violations": len(unexpected)}
